@@ -24,7 +24,19 @@ import (
 	"golang.org/x/crypto/nacl/secretbox"
 )
 
-type gen struct{ r *rand.Rand }
+type gen struct {
+	r   *rand.Rand
+	aux *rand.Rand // choices added after the seeded changes were recorded: their own stream, so that the histories of r stay what they were
+}
+
+var auxSeed int64
+
+func (g *gen) x() *rand.Rand {
+	if g.aux == nil {
+		g.aux = rand.New(rand.NewSource(auxSeed*7919 + 13))
+	}
+	return g.aux
+}
 
 var boundaryInts = []int64{0, 1, -1, 2, 3, 4, 8, 16, 64, 4096, 1 << 53, 1<<53 - 1, 1<<53 + 1, 1<<53 + 2, 1<<53 + 3,
 	-(1 << 53), -(1<<53 + 1), -(1<<53 - 1), 1 << 62, 1<<62 + 1, math.MaxInt64, math.MaxInt64 - 1, math.MinInt64, math.MinInt64 + 1,
@@ -167,7 +179,7 @@ func catch(f func()) (panicked bool) {
 }
 
 func runL0(seed int64, n int, dir string) error {
-	g := &gen{rand.New(rand.NewSource(seed))}
+	g := &gen{r: rand.New(rand.NewSource(seed))}
 	cf, err := os.Create(dir + "/cases.txt")
 	if err != nil {
 		return err
